@@ -58,7 +58,9 @@ func (u *Unit) byteT() types.Type { return types.Typ[types.Uint8] }
 func (u *Unit) endianValue(st *State, b Term, n int, little bool) string {
 	c := u.c
 	get := func(i int) string {
-		return u.sliceElem(st, b, c.idxConst(int64(i))).S
+		t := u.sliceElem(st, b, c.idxConst(int64(i)))
+		u.assumeRange(st, t)
+		return t.S
 	}
 	if c.bv {
 		// concat most significant first
@@ -244,6 +246,7 @@ func (u *Unit) libModel(st *State, e *ast.CallExpr, callee *types.Func, ca callA
 			eq(fmt.Sprintf("(select %s %s)", nb, k2), fmt.Sprintf("(select %s %s)", oldBlk, c.idxAdd(sOff(b.S), k2)))), fmt.Sprintf("(select %s %s)", nb, k2))
 		st.assume(u.uvarintAtFacts(nb, base, x.S))
 		u.heapWrite(st, h, fmt.Sprintf("(store %s %s %s)", cur, sRef(res), nb))
+		st.spare = append(st.spare, spareRegion{h, sRef(b.S), c.idxAdd(sOff(b.S), sLen(b.S))})
 		return Term{S: res, T: sig.Results().At(0).Type()}, true
 	case "errors.New":
 		r := c.fresh("err", "Int")
@@ -388,6 +391,11 @@ func (u *Unit) readAtModel(st *State, e *ast.CallExpr, r, p, off Term, sig *type
 	k := fmt.Sprintf("k_q%d", u.c.n)
 	st.assume(fmt.Sprintf("(forall ((%s %s)) %s)", k, c.idxSort(), implies(and(c.idxLe(zero, k), c.idxLt(k, n.S)),
 		eq(fmt.Sprintf("(select %s %s)", blk, c.idxAdd(sOff(p.S), k)), fmt.Sprintf("(select (rd.content %s) %s)", r.S, c.idxAdd(offI, k))))))
+	if !c.bv {
+		u.c.n++
+		k2 := fmt.Sprintf("k_q%d", u.c.n)
+		st.assume(fmt.Sprintf("(forall ((%s Int)) (and (<= 0 (select (rd.content %s) %s)) (<= (select (rd.content %s) %s) 255)))", k2, r.S, k2, r.S, k2))
+	}
 	return Term{Tuple: []Term{n, err}}
 }
 
@@ -402,7 +410,7 @@ func (u *Unit) externalCall(st *State, e *ast.CallExpr, callee *types.Func, ca c
 		args = append(args, *ca.recv)
 	}
 	args = append(args, ca.args...)
-	pure := u.eng.isPureExternal(callee)
+	pure := u.eng.isPureExternal(callee) || readOnlyExternal[callee.Name()] || readOnlyExternalFull[callee.FullName()]
 	for _, a := range args {
 		if a.T == nil {
 			continue
@@ -455,18 +463,47 @@ func (u *Unit) externalCall(st *State, e *ast.CallExpr, callee *types.Func, ca c
 	u.externalCalls[callee.FullName()] = true
 	u.bumpAlloc(st)
 	rs := u.freshResults(st, sig, "x_"+callee.Name())
-	for i, r := range rs {
-		if isErrorType(sig.Results().At(i).Type()) {
-			_ = r
+	if strings.HasPrefix(callee.Name(), "New") && len(rs) == 1 {
+		switch sig.Results().At(0).Type().Underlying().(type) {
+		case *types.Pointer, *types.Interface:
+			if u.c.sortOf(sig.Results().At(0).Type()) == "Int" {
+				st.assume(not(eq(rs[0].S, "0"))) // library convention (trusted): constructors return non-nil
+			}
+		}
+	}
+	// library convention (trusted): (T, error) results with err == nil carry a non-nil pointer/interface T
+	if n := len(rs); n >= 2 && isErrorType(sig.Results().At(n-1).Type()) {
+		for i := 0; i < n-1; i++ {
+			switch sig.Results().At(i).Type().Underlying().(type) {
+			case *types.Pointer, *types.Interface:
+				if u.c.sortOf(sig.Results().At(i).Type()) == "Int" {
+					st.assume(implies(eq(rs[n-1].S, "0"), not(eq(rs[i].S, "0"))))
+				}
+			}
 		}
 	}
 	return resultTerm(rs)
+}
+
+// readOnlyExternal: external methods that by their documented contract do not modify their slice arguments
+// (io.Writer: "Write must not modify the slice data, even temporarily").
+var readOnlyExternal = map[string]bool{"Write": true, "WriteAt": true, "WriteString": true, "WriteByte": true, "Sum64": true,
+	"Equal": true, "Compare": true, "Contains": true, "HasPrefix": true, "EncodeToString": true, "Encode": false}
+
+// readOnlyExternalFull: external constructors that keep a reference to their slice argument but do not modify it.
+var readOnlyExternalFull = map[string]bool{
+	"github.com/gagliardetto/binary.NewBorshDecoder": true, "github.com/gagliardetto/binary.NewBinDecoder": true,
+	"bytes.NewReader": true, "bytes.NewBuffer": true, "bufio.NewReader": true, "bufio.NewReaderSize": true,
+	"github.com/ipfs/go-cid.CidFromBytes": true, "github.com/ipfs/go-cid.Cast": true,
+	"github.com/fxamacker/cbor/v2.NewDecoder": true,
 }
 
 // externalIface: interface types whose implementations we treat as external objects (no callbacks into heaps we model).
 func (eng *Engine) externalIface(t types.Type) bool {
 	s := types.TypeString(t, nil)
 	switch s {
+	case "github.com/rpcpool/yellowstone-faithful/indexmeta.Decoder":
+		return true
 	case "io.Reader", "io.Writer", "io.ReaderAt", "io.WriterAt", "io.Closer", "io.ReadCloser", "io.ByteReader", "context.Context",
 		"io.ReadSeeker", "io.WriteCloser", "io.ReadWriter", "hash.Hash", "hash.Hash64":
 		return true
